@@ -87,7 +87,7 @@ def method_calls(q, rng, tmpdir):
         calls['grad_grad_B_tensor_cylindrical'] = lambda: q.grad_grad_B_tensor_cylindrical()
         calls['grad_grad_B_tensor_cartesian'] = lambda: q.grad_grad_B_tensor_cartesian()
         calls['calculate_grad_grad_B_tensor'] = lambda: q.calculate_grad_grad_B_tensor(two_ways=True)
-    if q.order == 'r3':
+        # (the shear diagnostic runs on second-order objects too: it reads O(r^2) data only)
         calls['calculate_shear'] = lambda: (q.calculate_shear(), q.iota2)[1]
     return calls
 
